@@ -151,7 +151,12 @@ impl<W: 'static, R: 'static, T: 'static> XSequence<W, R, T> {
                     .collect::<Result<Result<Vec<_>, _>, _>>()?);
                 ManagedXValue::new(XValue::StructInstance(items), rt).map(Ok)
             }
-            Self::Slice(seq, start, ..) => to_native!(seq, Self).get(idx + start, ns, rt),
+            Self::Slice(seq, start, ..) => {
+                let Some(idx) = idx.checked_add(*start) else {
+                    return Ok(Err(ManagedXError::new("index out of bounds", rt)?));
+                };
+                to_native!(seq, Self).get(idx, ns, rt)
+            }
             Self::Count => ManagedXValue::new(XValue::Int(idx.into()), rt).map(Ok),
             Self::Chain {
                 parts,
@@ -210,11 +215,18 @@ impl<W: 'static, R: 'static, T: 'static> XSequence<W, R, T> {
             return Some(Self::Empty);
         }
         Some(match self_ {
-            Self::Slice(origin, old_start, ..) => Self::Slice(
-                origin.clone(),
-                old_start + start,
-                end.map(|end| old_start + end),
-            ),
+            // a slice of a slice is flattened, unless the shifted bounds would not fit a usize
+            // (only possible far into an infinite sequence)
+            Self::Slice(origin, old_start, ..)
+                if old_start.checked_add(start).is_some()
+                    && end.map_or(true, |end| old_start.checked_add(end).is_some()) =>
+            {
+                Self::Slice(
+                    origin.clone(),
+                    old_start + start,
+                    end.map(|end| old_start + end),
+                )
+            }
             _ => Self::Slice(base.clone(), start, end),
         })
     }
